@@ -39,8 +39,11 @@ package local
 //@   modifies smap(&c.flowControls)
 //@   ensures [ret] result
 
+// loadFlowControls is proved against its body (sync.Map model); that the interface assertion on the stored value cannot
+// panic is not among its obligations (the engine has no implements-relation between tags and interfaces yet).
 //@ func (*upstreamCondition).loadFlowControls props C16
-//@   trusted "sync.Map lookup plus a type assertion to the interface every stored value was stored as"
+//@   requires [recv] c != nil
+//@   requires [typed] smhas(&c.flowControls, box(name)) ==> smget(&c.flowControls, box(name)) != nil && (typeis(smget(&c.flowControls, box(name)), "*flowcontrol.globalMaxInflight") || typeis(smget(&c.flowControls, box(name)), "*flowcontrol.globalTokenBucket"))
 //@   pure
 //@   ensures result1 == smhas(&c.flowControls, box(name)) && (result1 ==> result == smget(&c.flowControls, box(name))) && (!result1 ==> result == nil)
 
